@@ -54,8 +54,8 @@ func genValidCase(c *mon.Ctx, g *model.Gen, allowExt bool) (vc validCase, ok boo
 	}
 	vc.a = a
 	var err error
-	r0 := g.R.Intn(3)
-	if r0 == 1 && a.NoMeas != nil {
+	r0 := g.R.Intn(4)
+	if (r0 == 1 || r0 == 3) && a.NoMeas != nil {
 		*a.NoMeas = 1 // the setter can only assert the flag with value 1
 	}
 	switch r := r0; {
@@ -65,6 +65,32 @@ func genValidCase(c *mon.Ctx, g *model.Gen, allowExt bool) (vc validCase, ok boo
 	case r == 1:
 		vc.route = "setters"
 		vc.x, err = obs.SetterBuild(a)
+	case r == 3:
+		// every setter called twice: first with other valid values (same
+		// optional claims present), then with the final ones
+		vc.route = "setters-over-other-values"
+		other := g.Valid(a.P)
+		other.Canon, other.Profile = a.Canon, nil
+		if a.Profile != nil {
+			other.Profile = model.SP(*a.Profile)
+		}
+		if a.BootSeed == nil {
+			other.BootSeed = nil
+		} else if other.BootSeed == nil {
+			other.BootSeed = model.BP(g.Bytes(32))
+		}
+		if a.CertRef == nil {
+			other.CertRef = nil
+		}
+		if a.VSI == nil {
+			other.VSI = nil
+		}
+		if other.NoMeas != nil {
+			*other.NoMeas = 1
+		}
+		if vc.x, err = obs.SetterBuild(other); err == nil {
+			err = obs.SetterApply(vc.x, a)
+		}
 	default:
 		vc.route = "decoded"
 		if a.Canon == extprof.ExtP1Name {
@@ -515,7 +541,7 @@ func wireFormatProblems(a *model.Claims, enc []byte) []string {
 }
 
 func runC10(c *mon.Ctx) {
-	c.Rule("valid claims-sets of both profiles (all optional subsets, hash sizes, 1-4 components with optional text incl. non-ASCII/control characters, P1 flag or list, P1 with/without explicit profile), built directly, through setters, or obtained by decoding conformant wire tokens (incl. permuted key order and unknown extra keys); also sets with 22..26 and 254..257 (thorough: 65535..65537) components (array-header boundaries); every returned encoding is kept and re-checked after six further encodes; the bytes of ValidateAndEncodeClaimsToCBOR are parsed by the independent reader and compared, as an order-insensitive map, with the expected wire of the abstract set: one definite map, no trailing bytes, no duplicate / foreign / missing keys, no null, right type and exact value, single nonce as bare bstr, never list+flag, component keys within {1,2,4,5,6}. distinct_nontrivial = distinct (profile, route, optional-subset, nonce size, component count) signatures")
+	c.Rule("valid claims-sets of both profiles (all optional subsets, hash sizes, 1-4 components with optional text incl. non-ASCII/control characters, P1 flag or list, P1 with/without explicit profile), built directly, through setters, or obtained by decoding conformant wire tokens (incl. permuted key order and unknown extra keys); for wire tokens that are NOT conformant but that the validating decoder accepts all the same (C04's business), whatever ValidateAndEncodeClaimsToCBOR then emits must itself be conformant wire for the independent reader; also sets with 22..26 and 254..257 (thorough: 65535..65537) components (array-header boundaries); every returned encoding is kept and re-checked after six further encodes; the bytes of ValidateAndEncodeClaimsToCBOR are parsed by the independent reader and compared, as an order-insensitive map, with the expected wire of the abstract set: one definite map, no trailing bytes, no duplicate / foreign / missing keys, no null, right type and exact value, single nonce as bare bstr, never list+flag, component keys within {1,2,4,5,6}. distinct_nontrivial = distinct (profile, route, optional-subset, nonce size, component count) signatures")
 	g := model.NewGen(c.Seed*1201 + int64(c.Shard))
 	held10 := &returnedBytes{prop: "C10"}
 	// component lists at the CBOR array-header boundaries
@@ -589,7 +615,33 @@ func runC10(c *mon.Ctx) {
 			}
 			wi := model.ReadWire(ast, nil)
 			if wi.Verdict != model.Accept {
-				c.Count("wire-not-conformant-skipped")
+				// not (clearly) conformant: whether the library accepts it is C04's
+				// business - but IF it does, and the validating encoder then emits
+				// something, that output must be conformant wire by the independent
+				// reader's judgement (whatever the input looked like)
+				c.Count("wire-not-conformant")
+				var out []byte
+				var eerr error
+				if pn, pv, fr := mon.Guard(func() {
+					var y psatoken.IClaims
+					if y, eerr = psatoken.DecodeAndValidateClaimsFromCBOR(wire); eerr == nil {
+						out, eerr = psatoken.ValidateAndEncodeClaimsToCBOR(y)
+					}
+				}); pn {
+					c.Violation("C10/panic/"+mon.PanicKey(fr), "panic while decoding / encoding", map[string]any{"panic": pv, "frame": fr, "wire_hex": mon.Hex(wire)})
+					continue
+				}
+				c.Eval()
+				if eerr != nil {
+					continue
+				}
+				c.Count("emitted-after-accepting-nonconformant-input")
+				if oast, oerr := refcbor.DecodeAll(out); oerr != nil {
+					c.Violation(fmt.Sprintf("C10/P%d/emitted-unreadable", p), "the validating encoder emitted bytes the independent reader cannot parse: "+oerr.Error(), map[string]any{"emitted_hex": mon.Hex(out), "input_hex": mon.Hex(wire)})
+				} else if owi := model.ReadWire(oast, nil); owi.Verdict == model.Reject {
+					c.Violation(fmt.Sprintf("C10/P%d/emitted-nonconformant/%s/%d", p, owi.WrongKind, owi.WrongKey), "the validating encoder emitted a token that is not conformant wire ("+owi.Why+"): "+trunc(oast.Diag(), 300),
+						map[string]any{"emitted_hex": mon.Hex(out), "input_hex": mon.Hex(wire), "sig": s.String()})
+				}
 				continue
 			}
 			y, err := psatoken.DecodeAndValidateClaimsFromCBOR(wire)
